@@ -104,7 +104,7 @@ namespace rpc
         string(std::string_view s) { assign(s); }
         string() : base(nullptr, 0) { }
         const char* c_str() const { return cbegin(); }
-        std::string_view sv() const { return {c_str(), size() - 1}; }
+        std::string_view sv() const { return {c_str(), size() ? size() - 1 : 0}; }
         std::string to_std() { return std::string(sv()); };
         bool operator==(const string& rhs) const { return sv() == rhs.sv(); }
         bool operator!=(const string& rhs) const { return !(*this == rhs); }
